@@ -1,11 +1,11 @@
 """C09 — sequential-history correspondence + theorems (see DESIGN.md §9 C09)."""
-import seqprop
+import seqprop, concprop
 
 LEVEL = "proof"
 LEAN_MODULES = ["FsDb.Properties.C09"]
 TIES = seqprop.SEQ_TIES
 TRUSTED_BASE = seqprop.SEQ_TRUSTED
-ASSUMPTIONS = ["operations are issued one at a time (the property quantifies over sequential histories)",
+ASSUMPTIONS = ["the theorems quantify over histories of atomic steps (collector passes at any position); collector passes running CONCURRENTLY with Begin / reads / overwrites are covered by the small-step theorem of C06 and exercised here by a free-running stress",
                "fault-free storage"]
 PROFILE = "c09"
 QUICK, THOROUGH = 40, 1500
@@ -15,7 +15,11 @@ CORPUS = None
 
 
 def correspond(ctx):
-    return seqprop.correspond(ctx, "C09", PROFILE, QUICK, THOROUGH, WHAT, need_answers=NEED, corpus=CORPUS)
+    res = seqprop.correspond(ctx, "C09", PROFILE, QUICK, THOROUGH, WHAT, need_answers=NEED, corpus=CORPUS)
+    sv, scov = concprop.stress(ctx, "C09")
+    res["violations"] = list(res.get("violations", [])) + sv
+    res.setdefault("coverage", {})["stress"] = scov
+    return res
 
 
 def search(ctx):
